@@ -12,12 +12,13 @@ using namespace c15;
 // ------------------------------------------------------------------------------------------------ output buffer
 static std::string OUT;            // lines of the current scenario attempt
 static int NFAIL = 0;
+static bool RECS_ON = true;   // model records are sampled for large n (the extracted model is slow on 160-bit moduli)
 static void emit(const std::string &l) { OUT += l; OUT += '\n'; }
 static void fail(const std::string &key, const std::string &what) { NFAIL++; emit("PROPFAIL " + key + " " + what); }
 struct R { std::ostringstream o; explicit R(const char *k) { o << "REC " << k; }
 	R &t(const std::string &s) { o << ' ' << s; return *this; } R &z(mpz_srcptr v) { o << ' ' << hx(v); return *this; }
 	R &z(const Z &v) { o << ' ' << v.h(); return *this; } R &u(unsigned long v) { o << ' ' << hx(v); return *this; }
-	~R() { emit(o.str()); } };
+	~R() { if (RECS_ON) emit(o.str()); } };
 
 // ------------------------------------------------------------------------------------------------ groups
 struct Group { Z p, q, g, h; unsigned pbits, qbits; };
@@ -458,6 +459,7 @@ static void pure_records(unsigned count) {
 static void run_scenario(const Scn &S, time_t T) {
 	gen() = SplitMix64((SEED * 0x9E3779B97F4A7C15ULL) ^ (S.id * 0xD1B54A32D192ED03ULL + 99));
 	CUR = &S;
+	RECS_ON = S.kind == "pure" || S.n <= 5 || S.id % 4 == 0;
 	if (S.kind == "vss") vss_scenario(S, T);
 	else if (S.kind == "dkg") dkg_scenario(S, T);
 	else if (S.kind == "cgjkr") cgjkr_scenario(S, T);
